@@ -64,6 +64,25 @@ def main():
                 cands.append((name, mk()))
             except Exception as e:          # observable not constructible with this pulser: skip
                 print(f"  {name}: not constructed ({type(e).__name__}: {e})")
+        # user-defined observables whose base tag merely EXTENDS a supported one (energy_density,
+        # occupation_imbalance): site-resolved, unknown to permute_results -> reordering must be switched off
+        def custom(base):
+            class _Custom(PB.Observable):
+                @property
+                def _base_tag(self):
+                    return base
+
+                def apply(self, *, state, **kw):
+                    return state.expect_batch(torch.tensor([[[0, 0], [0, 1]]], dtype=torch.complex128))[:, 0].real
+            _Custom.__name__ = "Custom_" + base
+            return _Custom
+        for base in ("energy_density", "occupation_imbalance", "bitstrings2", "correlation_matrix_zz"):
+            for suffix in (None, "x"):
+                try:
+                    cands.append((f"custom observable with base tag '{base}'" + (f", tag_suffix '{suffix}'" if suffix else ""),
+                                  custom(base)(evaluation_times=[1.0], tag_suffix=suffix)))
+                except Exception as e:
+                    print(f"  custom {base}: not constructed ({type(e).__name__}: {e})")
         bad = []
         for name, o in cands:
             c = MPSConfig(observables=[o, PB.Occupation(evaluation_times=[1.0])], optimize_qubit_ordering=True, log_level=50)
